@@ -482,7 +482,7 @@ func sampleDoc(r *lib.Rng) DSpec {
 func GenSharedCall(r *lib.Rng) Call {
 	op := lib.Pick(r, []string{"jp.Get", "jp.Get", "jp.First", "jp.Has", "jp.Set", "jp.Del", "script.Match", "script.Eval",
 		"alt.Decompose", "alt.Generify", "rec.Recompose", "rec.Board", "rec.Board", "rec.Nest", "rec.Nest", "oj.Unmarshal", "pretty.JSON", "pretty.SEN", "oj.JSON.opt",
-		"sen.String.opt", "oj.Validate", "oj.Tokenize"})
+		"sen.String.opt", "oj.Validate", "oj.Tokenize", "oj.ValidateReader", "oj.TokenizeLoad", "sen.Parse", "alt.Alter", "alt.Dup", "jp.Remove"})
 	c := Call{Op: op, Path: r.Intn(64), Val: int64(r.Intn(100))}
 	if op == "jp.First" {
 		// the first match of a wildcard or descent over a map depends on map order
@@ -491,7 +491,7 @@ func GenSharedCall(r *lib.Rng) Call {
 		}
 	}
 	switch op {
-	case "jp.Get", "jp.First", "jp.Has", "jp.Set", "jp.Del":
+	case "jp.Get", "jp.First", "jp.Has", "jp.Set", "jp.Del", "jp.Remove":
 		d := sampleDoc(r)
 		c.Data = &d
 	case "script.Match":
@@ -500,13 +500,16 @@ func GenSharedCall(r *lib.Rng) Call {
 	case "script.Eval":
 		d := sampleDoc(r)
 		c.Data = &d.A[1]
-	case "alt.Decompose", "alt.Generify", "pretty.JSON", "pretty.SEN", "oj.JSON.opt", "sen.String.opt":
+	case "alt.Decompose", "alt.Generify", "alt.Alter", "alt.Dup", "pretty.JSON", "pretty.SEN", "oj.JSON.opt", "sen.String.opt":
 		d := GenData(r, 3, true, false)
 		c.Data = &d
 	case "rec.Recompose":
 		c.Data = &DSpec{K: "inner", S: lib.Pick(r, []string{"", "r"}), I: int64(r.Intn(9))}
-	case "oj.Unmarshal", "oj.Validate", "oj.Tokenize":
+	case "oj.Unmarshal", "oj.Validate", "oj.Tokenize", "sen.Parse":
 		withInput(r, &c)
+	case "oj.ValidateReader", "oj.TokenizeLoad":
+		withInput(r, &c)
+		c.Chunks = genChunks(r)
 	}
 	return c
 }
